@@ -105,6 +105,40 @@ func setPartitions(n int) [][]int {
 type partition struct {
 	label string
 	class map[int]int // param index -> representative param index
+	// interior aliasing: param index -> (host param index, path inside the host's pointee)
+	inHost map[int]int
+	inPath map[int][]PE
+}
+
+// interiorPaths lists the paths of sub-objects of type t inside type host (struct fields / small arrays).
+func (v *Verifier) interiorPaths(host, t types.Type, prefix []PE, label string, out *[]interiorPath, depth int) {
+	if depth > 4 {
+		return
+	}
+	if v.isAbstract(host) && !types.Identical(host, t) {
+		return
+	}
+	if types.Identical(host, t) && len(prefix) > 0 {
+		*out = append(*out, interiorPath{append([]PE(nil), prefix...), label})
+		return
+	}
+	switch u := host.Underlying().(type) {
+	case *types.Struct:
+		for i := 0; i < u.NumFields(); i++ {
+			v.interiorPaths(u.Field(i).Type(), t, append(prefix, PE{I: i}), label+"."+u.Field(i).Name(), out, depth+1)
+		}
+	case *types.Array:
+		if u.Len() <= 8 {
+			for i := 0; i < int(u.Len()); i++ {
+				v.interiorPaths(u.Elem(), t, append(prefix, PE{I: i}), fmt.Sprintf("%s[%d]", label, i), out, depth+1)
+			}
+		}
+	}
+}
+
+type interiorPath struct {
+	path  []PE
+	label string
 }
 
 func (v *Verifier) partitions(fn *ssa.Function, c *Contract) []partition {
@@ -174,6 +208,37 @@ func (v *Verifier) partitions(fn *ssa.Function, c *Contract) []partition {
 			}
 		}
 		parts = np
+	}
+	// single interior aliasing: one operand points into the pointee of another operand of a larger type
+	// (z.MulBy034(&z.C0.B0, ...)); all other operands pairwise distinct
+	if c.Options["interior"] != "" && len(parts) > 0 {
+		base := partition{label: "", class: map[int]int{}}
+		for _, k := range keys {
+			for _, i := range groups[k] {
+				base.class[i] = i
+			}
+		}
+		for i, pi := range fn.Params {
+			pti, ok := pi.Type().Underlying().(*types.Pointer)
+			if !ok {
+				continue
+			}
+			for j, pj := range fn.Params {
+				ptj, ok := pj.Type().Underlying().(*types.Pointer)
+				if !ok || i == j || types.Identical(pti.Elem(), ptj.Elem()) {
+					continue
+				}
+				var ips []interiorPath
+				v.interiorPaths(ptj.Elem(), pti.Elem(), nil, pj.Name(), &ips, 0)
+				for _, ip := range ips {
+					p := partition{label: pi.Name() + "=&" + ip.label, class: map[int]int{}, inHost: map[int]int{i: j}, inPath: map[int][]PE{i: ip.path}}
+					for a, b := range base.class {
+						p.class[a] = b
+					}
+					parts = append(parts, p)
+				}
+			}
+		}
 	}
 	return parts
 }
@@ -252,6 +317,22 @@ func (v *Verifier) VerifyFunc(pkg *ssa.Package, c *Contract, pool *Pool) (res *F
 	}
 	t0 := time.Now()
 	defer func() { res.ExecSec = time.Since(t0).Seconds() }()
+	func() {
+		defer func() {
+			if r := recover(); r != nil {
+				if u, ok := r.(unsupported); ok {
+					res.Status = "outside-subset"
+					res.Reason = u.msg
+					return
+				}
+				panic(r)
+			}
+		}()
+		v.setupLayer(pkg, c)
+	}()
+	if res.Status == "outside-subset" {
+		return
+	}
 	parts := v.partitions(fn, c)
 	for _, p := range parts {
 		res.Partitions = append(res.Partitions, p.label)
@@ -276,7 +357,35 @@ func (v *Verifier) VerifyFunc(pkg *ssa.Package, c *Contract, pool *Pool) (res *F
 	return
 }
 
+// layerKeyOf: canonical name of the abstraction layer of a contract (set of abstract types)
+func (v *Verifier) layerKeyOf(pkg *ssa.Package, c *Contract) string {
+	if c.Layer == "" {
+		return ""
+	}
+	if k, ok := v.layerKeys[c]; ok {
+		return k
+	}
+	f := strings.Fields(c.Layer)
+	var ks []string
+	for _, tn := range f[1:] {
+		if pkg == nil {
+			ks = append(ks, tn)
+			continue
+		}
+		if t := v.resolveType(pkg, tn); t != nil {
+			ks = append(ks, typeKey(t))
+		} else {
+			ks = append(ks, "?"+tn)
+		}
+	}
+	sort.Strings(ks)
+	k := f[0] + ":" + strings.Join(ks, ",")
+	v.layerKeys[c] = k
+	return k
+}
+
 func (v *Verifier) setupLayer(pkg *ssa.Package, c *Contract) {
+	v.curLayerKey = v.layerKeyOf(pkg, c)
 	v.abstract = map[string]string{}
 	v.abstractProducts = true
 	if c.Layer == "" {
@@ -381,6 +490,9 @@ func (v *Verifier) runPartition(pkg *ssa.Package, fn *ssa.Function, c *Contract,
 	objs := map[int]*Object{}
 	for i, prm := range fn.Params {
 		name := prm.Name()
+		if _, interior := p.inHost[i]; interior {
+			continue // bound below, after all host objects exist
+		}
 		if pt, ok := prm.Type().Underlying().(*types.Pointer); ok {
 			rep := p.class[i]
 			o := objs[rep]
@@ -397,6 +509,14 @@ func (v *Verifier) runPartition(pkg *ssa.Package, fn *ssa.Function, c *Contract,
 		if a, ok := env[prm].(*AggV); ok {
 			fr.params[name] = wrapTyped(a, prm.Type())
 		}
+	}
+	for i, host := range p.inHost {
+		hp, ok := env[fn.Params[host]].(*PtrV)
+		if !ok {
+			unsup("interior alias host is not a pointer")
+		}
+		env[fn.Params[i]] = &PtrV{Obj: hp.Obj, Path: append(append([]PE(nil), hp.Path...), p.inPath[i]...)}
+		fr.params[fn.Params[i].Name()] = env[fn.Params[i]]
 	}
 	for o, val := range v.initMem {
 		st.mem[o] = val
@@ -489,6 +609,9 @@ func (v *Verifier) runPartition(pkg *ssa.Package, fn *ssa.Function, c *Contract,
 		fin.ghosts[g.Name] = pe.evalTerm(g.E)
 	}
 	for _, e := range c.Ensures {
+		if e.Name == "result" && rs.Len() == 0 {
+			continue // template clause for the variants of this function that return their receiver
+		}
 		g := pe.evalBool(e.E)
 		fr.oblige(fin, "post:"+e.Name, g, e.E.Src)
 	}
